@@ -21,10 +21,12 @@ Definition spec_array (x : string) (a : array) : array :=
      a_byte_constrained := a_byte_constrained a; a_alignment := a_alignment a; a_last_padded := a_last_padded a |}.
 Definition spec_type (x : string) (t : ftype) : ftype :=
   match t with FInt i => FInt (spec_int x i) | FName n => FName n | FArray a => FArray (spec_array x a) end.
-Definition spec_value (x : string) (v : fvalue) : fvalue :=
+(* a condition's link is re-pointed; the member a `sizeof` member measures is re-pointed like a member name; constants are kept *)
+Definition spec_value (x : string) (d : disposition) (v : fvalue) : fvalue :=
   match v with
   | VCond c => VCond {| c_value := c_value c; c_op := c_op c; c_link := spec_point x (c_link c) |}
-  | VNone => VNone | VNum n => VNum n | VName s => VName s
+  | VNone => VNone | VNum n => VNum n
+  | VName s => match d with DispSizeof => VName (spec_name x s) | _ => VName s end
   end.
 (* the comment of the copy of member n: the `[n] ...` entry of the documentation of the named inline (None when absent) *)
 Definition spec_comment (site_comment : option string) (n : string) : option string :=
@@ -32,7 +34,7 @@ Definition spec_comment (site_comment : option string) (n : string) : option str
 
 Definition prefix_copy (x : string) (site_comment : option string) (m : field) : field :=
   match m with
-  | Field n t v d a _ => Field (spec_name x n) (spec_type x t) (spec_value x v) d a (spec_comment site_comment n)
+  | Field n t v d a _ => Field (spec_name x n) (spec_type x t) (spec_value x d v) d a (spec_comment site_comment n)
   | InlinePlaceholder t c => InlinePlaceholder t c
   end.
 
@@ -73,8 +75,8 @@ Proof.
   - unfold copy_array, spec_array. destruct (a_size a), (a_sort_key a); reflexivity.
 Qed.
 
-Lemma copy_fvalue_spec x v : copy_fvalue x v = spec_value x v.
-Proof. destruct v; reflexivity. Qed.
+Lemma copy_fvalue_spec x d v : copy_fvalue x d v = spec_value x d v.
+Proof. destruct v; try reflexivity. destruct d; reflexivity. Qed.
 
 Lemma copy_field_spec x cmt n t v d a c :
   copy_field x (match cmt with Some c => build_comment_map c | None => [] end) (Field n t v d a c)
@@ -122,12 +124,13 @@ Lemma prefix_copy_keeps x cmt n t v d a c :
      end
   /\ match v, v' with
      | VCond k, VCond k' => c_value k' = c_value k /\ c_op k' = c_op k
+     | VName s, VName s' => s' = match d with DispSizeof => spec_name x s | _ => s end
      | _, _ => v' = v
      end.
 Proof.
   eexists _, _, _, _. split; [reflexivity|]. split.
   - destruct t as [i|s|r]; cbn; auto. repeat split; auto. intros E; rewrite E; reflexivity. intros z E; rewrite E; reflexivity.
-  - destruct v; cbn; auto.
+  - destruct v; cbn; auto. destruct d; reflexivity.
 Qed.
 
 Lemma prefix_copy_is_field x cmt m : is_field (prefix_copy x cmt m) = is_field m.
